@@ -99,13 +99,13 @@ func writeEvidence(id, tier string, seed uint64, p *propInfo, a *aggregate, det 
 		"operations":            a.ops,
 		"logical_steps":         a.steps,
 		"invariant_evaluations": a.checks,
-		"simulated_time":        fmt.Sprintf("%d logical steps (library calls and scheduler steps); the wall clock is a seam (per run an instant between 1970 and 9999 and a jump of 0 s..80 years per read, both from the tape) that go-cose read %d times in this check", a.steps, a.faults["clock.read-by-library"]),
+		"simulated_time":        fmt.Sprintf("%d logical steps (library calls and scheduler steps); the wall clock is a seam (per run an instant between 1970 and 9999 and a jump of 0 s..80 years per read, both from the tape) that go-cose read %d times in this check (simulated environment: %d reads)", a.steps, a.faults["clock.read-by-library"], a.faults["env.read-by-library"]),
 		"faults_fired":          a.faults,
 		"probes":                a.probes,
 		"runs_per_hour":         int(float64(a.runs) / wall * 3600),
 		"seeds":                 []uint64{seed},
 		"real_components":       p.Real,
-		"stub_components":       append(append([]string{}, p.Stubs...), "wall clock of package cose: simulated (tape-drawn instant and per-read jump; time.Now/Since/Until rerouted by the instrumenter; the pinned tree never reads it)"),
+		"stub_components":       append(append([]string{}, p.Stubs...), "wall clock and process environment of package cose: simulated (tape-drawn instant, per-read jump and variable values; time.Now/Since/Until and os.Getenv/LookupEnv rerouted by the instrumenter; the pinned tree reads neither)"),
 		"determinism_selftest": map[string]any{
 			"tapes": det.tapes, "processes": det.procs, "gomaxprocs": []int{1, 8}, "identical_event_logs": det.ok, "log_sha256": det.hashes,
 		},
@@ -198,8 +198,51 @@ func selftest() int {
 	defer os.RemoveAll(dir2)
 	copy2 := filepath.Join(dir2, "repo")
 	probe := map[string]string{
-		"zz_verif_clock_probe.go":      "package cose\n\nimport \"time\"\n\nfunc verifClockProbe(t0 time.Time) (time.Time, time.Duration, time.Duration) {\n\tnow := time.Now()\n\treturn now, time.Since(t0), time.Until(t0)\n}\n",
-		"zz_verif_clock_probe_test.go": "package cose\n\nimport (\n\t\"testing\"\n\t\"time\"\n\n\t\"github.com/veraison/go-cose/verifsim\"\n)\n\nfunc TestVerifClockProbe(t *testing.T) {\n\tat := time.Unix(253402300799, 0).UTC()\n\tverifsim.NowHook = func() time.Time { return at }\n\tdefer func() { verifsim.NowHook = nil }()\n\tr0 := verifsim.ClockReads\n\tnow, since, until := verifClockProbe(at.Add(-time.Hour))\n\tif !now.Equal(at) || since != time.Hour || until != -time.Hour || verifsim.ClockReads-r0 != 3 {\n\t\tt.Fatalf(\"clock reads of package cose do not reach the simulated clock: %v %v %v reads=%d\", now, since, until, verifsim.ClockReads-r0)\n\t}\n}\n",
+		"zz_verif_clock_probe.go": `package cose
+
+import (
+	"os"
+	"time"
+)
+
+func verifClockProbe(t0 time.Time) (time.Time, time.Duration, time.Duration) {
+	now := time.Now()
+	return now, time.Since(t0), time.Until(t0)
+}
+
+func verifEnvProbe() (string, string, bool) {
+	a := os.Getenv("VERIF_PROBE_A")
+	b, ok := os.LookupEnv("VERIF_PROBE_B")
+	return a, b, ok
+}
+`,
+		"zz_verif_clock_probe_test.go": `package cose
+
+import (
+	"testing"
+	"time"
+
+	"github.com/veraison/go-cose/verifsim"
+)
+
+func TestVerifClockProbe(t *testing.T) {
+	at := time.Unix(253402300799, 0).UTC()
+	verifsim.NowHook = func() time.Time { return at }
+	defer func() { verifsim.NowHook = nil }()
+	r0 := verifsim.ClockReads
+	now, since, until := verifClockProbe(at.Add(-time.Hour))
+	if !now.Equal(at) || since != time.Hour || until != -time.Hour || verifsim.ClockReads-r0 != 3 {
+		t.Fatalf("clock reads of package cose do not reach the simulated clock: %v %v %v reads=%d", now, since, until, verifsim.ClockReads-r0)
+	}
+	verifsim.EnvHook = func(name string) (string, bool) { return "sim:" + name, true }
+	defer func() { verifsim.EnvHook = nil }()
+	e0 := verifsim.EnvReads
+	a, b, ok := verifEnvProbe()
+	if a != "sim:VERIF_PROBE_A" || b != "sim:VERIF_PROBE_B" || !ok || verifsim.EnvReads-e0 != 2 {
+		t.Fatalf("environment reads of package cose do not reach the simulated environment: %q %q %v reads=%d", a, b, ok, verifsim.EnvReads-e0)
+	}
+}
+`,
 	}
 	if err := makeInstrumentedCopyWith(dir2, copy2, probe); err != nil {
 		fmt.Fprintln(os.Stderr, "verif selftest: cannot instrument the clock-probe copy:", err)
@@ -212,7 +255,7 @@ func selftest() int {
 		fmt.Fprintf(os.Stderr, "verif selftest: the clock seam does not work:\n%s\n", out)
 		return 2
 	}
-	fmt.Println("verif selftest: clock seam: time.Now/Since/Until planted in package cose read the simulated clock")
+	fmt.Println("verif selftest: clock and environment seams: time.Now/Since/Until and os.Getenv/LookupEnv planted in package cose read the simulator's")
 	return 0
 }
 
